@@ -35,6 +35,15 @@ def common(typ, body, length=None):
     return bytes([3]) + struct.pack('>I', n if length is None else length) + bytes([typ]) + body
 
 
+# the oracle's own protocol tables (RFC 7854 / 8671 / 9069): names of the code points the decoder reports
+PEER_TYPE_NAMES = {0: 'GlobalInstance', 1: 'RdInstance', 2: 'LocalInstance', 3: 'LocalRibInstance'}
+TLV_NAMES = {0: 'String', 1: 'SysDesc', 2: 'SysName', 3: 'VrfTableName', 4: 'AdminLabel'}
+
+
+def tlv_name(t):
+    return TLV_NAMES.get(t, 'Undefined(%d)' % t)
+
+
 def gen_pph(rng):
     pt = rng.choice([0, 0, 1, 2, 3])
     fl = rng.choice([0, 0x80, 0x40, 0x20, 0x10, 0xc0, 0xf0, rng.below(256)])
@@ -46,8 +55,8 @@ def gen_pph(rng):
     us = rng.choice([0, 1, 999999, 1000000, 1999999, 2000000, 4294967, 4294968, 0xffffffff, rng.below(1000000), rng.below(1 << 32)])
     raw = bytes([pt, fl]) + dist + addr + struct.pack('>I', asn) + bid + struct.pack('>II', secs, us)
     ns = min(us * 1000, 0xffffffff)
-    exp = '%d/%d/%s/%s/%d/%s/%s/%d/%d%d%d%d%d' % (
-        pt, fl, dist.hex(), ('6:' + addr.hex()) if fl & 0x80 else ('4:' + addr[12:].hex()), asn, bid.hex(),
+    exp = '%d.%s/%d/%s/%s/%d/%s/%s/%d/%d%d%d%d%d' % (
+        pt, PEER_TYPE_NAMES[pt], fl, dist.hex(), ('6:' + addr.hex()) if fl & 0x80 else ('4:' + addr[12:].hex()), asn, bid.hex(),
         ('%d.%d' % (secs, ns)) if (ns < 1000000000 or (ns < 2000000000 and secs % 60 == 59)) else 'MIN', 2 if pt == 3 else (1 if fl & 0x10 else 0),
         0 if fl & 0x80 else 1, 1 if fl & 0x80 else 0, 0 if fl & 0x40 else 1, 1 if fl & 0x40 else 0, 1 if fl & 0x20 else 0)
     return raw, exp
@@ -168,10 +177,10 @@ def gen_valid(rng, upd_pool):
         b = common(3, h + la + struct.pack('>HH', lp, rp) + s + r + enc_tlvs(tl))
         return b, 'PU', {'pph': he, 'local': '%s/%d/%d' % (('6:' + la.hex()) if v6 else ('4:' + la[12:].hex()), lp, rp),
                          'sent': s.hex(), 'rcvd': r.hex(), 'both': '%s/%s' % (s.hex(), r.hex()),
-                         'tlvs': '[%s]' % ','.join('%d:%s' % (t, v.hex() or '-') for t, v in tl)}
+                         'tlvs': '[%s]' % ','.join('%d/%s:%s' % (t, tlv_name(t), v.hex() or '-') for t, v in tl)}
     if k == 4:
         tl = gen_tlvs(rng)
-        return common(4, enc_tlvs(tl)), 'IN', {'tlvs': '[%s]' % ','.join('%d:%s' % (t, v.hex() or '-') for t, v in tl)}
+        return common(4, enc_tlvs(tl)), 'IN', {'tlvs': '[%s]' % ','.join('%d/%s:%s' % (t, tlv_name(t), v.hex() or '-') for t, v in tl)}
     if k == 5:
         info = []
         raw = b''
